@@ -89,6 +89,7 @@ type Stats struct {
 	Transitions  int            `json:"transitions"`
 	Points       int            `json:"choice_points"`
 	MaxEnabled   int            `json:"max_enabled"`
+	MaxOps       uint64         `json:"max_hooked_ops_per_execution"`
 	MaxThreads   int            `json:"max_threads"`
 	Outcomes     int            `json:"distinct_outcomes"`
 	OutcomeHist  map[string]int `json:"-"`
@@ -272,6 +273,9 @@ func (e *Explorer) explore(prefix []int, depth int) {
 	e.Stats.TotalRuns++
 	e.Stats.Transitions += x.Res.Steps
 	e.Stats.Points += len(x.Res.Points)
+	if x.Res.Ops > e.Stats.MaxOps {
+		e.Stats.MaxOps = x.Res.Ops
+	}
 	if x.Res.MaxEnable > e.Stats.MaxEnabled {
 		e.Stats.MaxEnabled = x.Res.MaxEnable
 	}
